@@ -204,12 +204,36 @@ def hSigFlip : Handler
     some s!"{showBool (sigOctetHashed body pos)} {r}"
   | _ => none
 
+def showHexList (l : List Bytes) : String := "[" ++ ",".intercalate (l.map hexOfBytes) ++ "]"
+
+/-- canonical text of the fields of a decoded signature packet -/
+def showArea (f : AreaResult) : String :=
+  let c := f.ctx
+  s!"c={c.creation} e={c.expiration} k={c.keyexpiration} x={showBool c.exportable} r={showBool c.revocable} " ++
+  s!"kf={hexOfBytes c.keyflags} ft={hexOfBytes c.features} psa={hexOfBytes c.psa} pha={hexOfBytes c.pha} " ++
+  s!"pca={hexOfBytes c.pca} paa={hexOfBytes c.paa} rc={c.revcode} " ++
+  s!"rk={c.revkeyClass}:{c.revkeyAlgo}:{hexOfBytes c.revkeyFpr} pu={showBool c.primaryUid} " ++
+  s!"i={hexOfBytes c.issuer} iv={c.issuerVer} if={hexOfBytes c.issuerFpr} es={hexOfBytes c.embedded} " ++
+  s!"esl={showHexList f.embeddedsigs} " ++
+  "nt=[" ++ ",".intercalate (f.notations.map fun nv => hexOfBytes nv.1 ++ ":" ++ hexOfBytes nv.2) ++ "] " ++
+  s!"rf={showHexList f.recipients}"
+
+/-- pgpmsg.sigmerge <hashed area> <unhashed area> => err | critical | ok <fields> -/
+def hSigMerge : Handler
+  | [h, u] => do
+    let h ← pHex h; let u ← pHex u
+    match sigFieldsOfAreas h u with
+    | .err => some "err"
+    | .critical => some "critical"
+    | .ok f => some ("ok " ++ showArea f)
+  | _ => none
+
 def handlers : List (String × Handler) := [
   ("pgpmsg.cfb.enc", hCfbEnc), ("pgpmsg.cfb.dec", hCfbDec),
   ("pgpmsg.aead.enc", hAeadEnc), ("pgpmsg.aead.dec", hAeadDec),
   ("pgpmsg.msg.parse", hMsgParse), ("pgpmsg.msg.dec", hMsgDec),
   ("pgpmsg.hash", hHash), ("pgpmsg.validity", hValidity), ("pgpmsg.verify", hVerify),
-  ("pgpmsg.sigflip", hSigFlip)
+  ("pgpmsg.sigflip", hSigFlip), ("pgpmsg.sigmerge", hSigMerge)
 ]
 
 end Tmcg.DriverPgpMsg
